@@ -3,15 +3,15 @@ CFG = dict(
     claim="Theorems C20_chain, C20_chain_stream, C20_chain_empty, C20_chain_order, C20_chain_order_stream, C20_chain_transform, "
           "C20_site_none, C20_site_single, C20_site_chain, C20_client_site (coq/Props/C20.v): for every non-empty list of arbitrary "
           "interceptors the interceptor installed by Chain{Unary,Stream}Interceptor is the nesting in registration order around the "
-          "handler; stats: C20_stats_client_unary_partial, C20_stats_client_stream_open_failed, C20_stats_client_stream, "
+          "handler; stats: C20_stats_client_unary, C20_stats_client_stream_open_failed, C20_stats_client_stream, "
           "C20_stats_server_unary_partial, C20_stats_server_stream_partial, C20_stats_refused, C20_conn: for every role and every exit "
           "(client stream: every sequence of calls and arrivals; server stream: every handler program) one Begin first, one End, "
-          "End.Error nil iff success except for io.EOF (C20_stats_end_eof_refuted; findings server-end-eof-nil, client-end-eof-nil); "
+          "End.Error nil iff success (client unary: full statement; server: except for io.EOF, C20_stats_end_eof_refuted, finding server-end-eof-nil); "
           "the models are run against the installed interceptors, the exported recursion, every exit of the real code and real RPCs on every run.",
     props="Props/C20.v",
     theorems=["C20_chain", "C20_chain_stream", "C20_chain_empty", "C20_chain_order", "C20_chain_order_stream",
               "C20_chain_transform", "C20_site_none", "C20_site_single", "C20_site_chain", "C20_client_site",
-              "C20_stats_client_unary_partial", "C20_stats_client_stream_open_failed", "C20_stats_client_stream",
+              "C20_stats_client_unary", "C20_stats_client_stream_open_failed", "C20_stats_client_stream",
               "C20_stats_server_unary_partial", "C20_stats_server_stream_partial", "C20_stats_end_eof_refuted",
               "C20_stats_refused", "C20_conn"],
     imports=["Model.Chain", "Model.Stats", "Check.C20c"],
